@@ -258,6 +258,13 @@ def check_bdd(prop, tier, replay, selftest):
     res.add_trace(tr2)
     _bdd_collect(prop, res, tr2, build="none")
     res.extra["builds"] = ["default", "no optional feature"]
+    if prop == "C13":
+        # the counts as the CLI prints them (--counter nai, naive and hybrid arm)
+        out3 = cli_trace(binary, tier, "C13")
+        tr3 = tlc_trace("Trace_Cli", out3, min_per_shard=10)
+        res.add_trace(tr3)
+        cli_collect(prop, res, tr3)
+        res.extra["cli_counter_launches"] = sum(1 for l in tr3["lines"] if '"kind":"cli_counter"' in l)
     return res.finish()
 
 
